@@ -64,7 +64,13 @@ func (p *tcpProxy) serve() {
 		}
 		p.mu.Lock()
 		p.conns[c], p.conns[d] = true, true
+		throttled := p.rate > 0
 		p.mu.Unlock()
+		if tc, ok := d.(*net.TCPConn); ok && throttled {
+			// a slow link, not a long one: what the remote node has sent and the link has not carried
+			// yet must stay small, or a status reply waits seconds behind the output queued before it
+			_ = tc.SetReadBuffer(64 << 10)
+		}
 		pipe := func(dst, src net.Conn) {
 			n, _ := io.Copy(dst, src)
 			p.mu.Lock()
